@@ -33,8 +33,9 @@ class DPT4ByteFloat(DPTNumeric):
     value_type = "4byte_float"
     payload_length = 4
 
-    value_min = float("-inf")
-    value_max = float("inf")
+    # largest finite IEEE 754 binary32 value; finite values beyond can not be encoded
+    value_min = -3.4028234663852886e38
+    value_max = 3.4028234663852886e38
     resolution = 0.0000001
 
     @classmethod
